@@ -67,7 +67,32 @@ func newTimerRunner() func(raw []byte, echo vtrace.Rec, w *vtrace.Writer) error 
 	}
 }
 
+// AcquireTimer / ReleaseTimer never block by contract; a call that has not returned after `patient` is recorded as
+// Hang (no action of the specification).  After three hangs the remaining scenarios of this process are not run any
+// more (every one would cost the full wait): each is recorded as Case + Hang{skipped}.
+var hangs int
+
+func bounded(f func()) (returned bool, panicked interface{}) {
+	done := make(chan interface{}, 1)
+	go func() {
+		defer func() { done <- recover() }()
+		f()
+	}()
+	giveUp := time.NewTimer(patient)
+	defer giveUp.Stop()
+	select {
+	case p := <-done:
+		return true, p
+	case <-giveUp.C:
+		return false, nil
+	}
+}
+
 func runScenario(c *timerCase, w *vtrace.Writer, seen map[*time.Timer]bool) error {
+	if hangs >= 3 {
+		w.Emit("Hang", vtrace.Rec{"u": 0, "op": "-", "skipped": true})
+		return nil
+	}
 	ids := map[*time.Timer]int{}
 	var order []*time.Timer
 	hold := map[int]*time.Timer{}
@@ -75,8 +100,12 @@ func runScenario(c *timerCase, w *vtrace.Writer, seen map[*time.Timer]bool) erro
 	start := map[int]time.Time{}
 	el := func(u int) int64 { return time.Since(start[u]).Microseconds() }
 	var infra error
+	hung := false
 	for _, st := range c.Steps {
 		u := st.U
+		if hung {
+			break
+		}
 		func() {
 			defer func() {
 				if p := recover(); p != nil {
@@ -91,7 +120,13 @@ func runScenario(c *timerCase, w *vtrace.Writer, seen map[*time.Timer]bool) erro
 			case "A":
 				d := durOf(st.D)
 				start[u] = time.Now()
-				t := timer.AcquireTimer(d)
+				var t *time.Timer
+				if ok, p := bounded(func() { t = timer.AcquireTimer(d) }); !ok {
+					hung = true
+					return
+				} else if p != nil {
+					panic(p)
+				}
 				peek := len(t.C)
 				e := el(u)
 				if _, ok := ids[t]; !ok {
@@ -138,13 +173,23 @@ func runScenario(c *timerCase, w *vtrace.Writer, seen map[*time.Timer]bool) erro
 				w.Emit("Try", vtrace.Rec{"u": u, "got": got, "el_us": el(u)})
 			case "X":
 				t := hold[u]
-				timer.ReleaseTimer(t)
+				if ok, p := bounded(func() { timer.ReleaseTimer(t) }); !ok {
+					hung = true
+					return
+				} else if p != nil {
+					panic(p)
+				}
 				delete(hold, u)
 				last[u] = t
 				w.Emit("Rel", vtrace.Rec{"u": u, "left": len(t.C)})
 			case "Y":
 				t := last[u]
-				timer.ReleaseTimer(t)
+				if ok, p := bounded(func() { timer.ReleaseTimer(t) }); !ok {
+					hung = true
+					return
+				} else if p != nil {
+					panic(p)
+				}
 				w.Emit("RelAgain", vtrace.Rec{"u": u, "left": len(t.C)})
 			default:
 				infra = fmt.Errorf("unknown step %q", st.Op)
@@ -153,8 +198,14 @@ func runScenario(c *timerCase, w *vtrace.Writer, seen map[*time.Timer]bool) erro
 		if infra != nil {
 			return infra
 		}
+		if hung {
+			hangs++
+			w.Emit("Hang", vtrace.Rec{"u": u, "op": st.Op, "skipped": false})
+		}
 	}
-	w.Emit("Done", vtrace.Rec{"timers": len(ids)})
+	if !hung {
+		w.Emit("Done", vtrace.Rec{"timers": len(ids)})
+	}
 	// clean-up (not judged): stop everything this case touched, then empty the pool
 	for _, t := range order {
 		t.Stop()
@@ -196,9 +247,17 @@ func runStorm(c *timerCase, w *vtrace.Writer) {
 			}
 		}(g)
 	}
-	wg.Wait()
+	fin := make(chan struct{})
+	go func() { wg.Wait(); close(fin) }()
+	hung := 0
+	select {
+	case <-fin:
+	case <-time.After(time.Duration(c.Ms)*time.Millisecond + 2*patient):
+		hung = 1 // some worker is stuck inside AcquireTimer / ReleaseTimer
+	}
 	// stale = how often a timer acquired for 1000 s had a tick in its channel 2 microseconds later
-	w.Emit("Storm", vtrace.Rec{"iters": iters, "stale": stale, "panics": panics})
+	w.Emit("Storm", vtrace.Rec{"iters": atomic.LoadInt64(&iters), "stale": atomic.LoadInt64(&stale),
+		"panics": atomic.LoadInt64(&panics), "hung": hung})
 }
 
 func storm500(d time.Duration, np *int, stale, panics *int64) {
